@@ -211,6 +211,66 @@ def run(ctx):
             ctx.violation("new-mnemonic", "fresh-wallets-coincide-after-fork",
                           "processes forked from one parent produced the same %d-word mnemonic %r" % (words, dup[:50]), {"mode": "fork", "words": words})
     ctx.notes["forked_children_compared"] = 12
+    # wallets created by several THREADS at once (with preemption injected into the mnemonic module): still all
+    # different, none of them the all-zero entropy, every checksum valid
+    import sys
+    import threading
+    import time as _time
+    from btc_hd_wallet import PaperWallet, bip39
+    from btc_hd_wallet.bip39_wordlist import word_list as _wl
+    pos = {str(w_): i_ for i_, w_ in enumerate(_wl)}
+    got, errs = [], []
+
+    def local(frame, event, arg):
+        if event == "line":
+            _time.sleep(0.00002)
+        return local
+
+    def tracer(frame, event, arg):
+        if event == "call" and frame.f_code.co_filename.endswith(("bip39.py", "base_wallet.py")) and "btc_hd_wallet" in frame.f_code.co_filename:
+            return local
+        return None
+
+    def work(k):
+        try:
+            for j in range(10 if ctx.quick else 60):
+                words = (12, 24, 18)[(k + j) % 3]
+                got.append(bip39.mnemonic_from_entropy_bits(words * 32 // 3) if j % 2 else PaperWallet.new_wallet(mnemonic_length=words).mnemonic)
+        except Exception as ex:
+            errs.append(repr(ex))
+    old_sw = sys.getswitchinterval()
+    sys.setswitchinterval(1e-6)
+    threading.settrace(tracer)
+    try:
+        ths = [threading.Thread(target=work, args=(k,)) for k in range(8)]
+        for t_ in ths:
+            t_.start()
+        for t_ in ths:
+            t_.join()
+    finally:
+        threading.settrace(None)
+        sys.setswitchinterval(old_sw)
+    ctx.evaluations += len(got)
+    bad = None
+    if errs:
+        bad = "creating wallets from 8 threads raised %s" % errs[0]
+    elif len(set(got)) != len(got):
+        bad = "wallets created by concurrent threads coincide: %r" % [m_ for m_ in set(got) if got.count(m_) > 1][0][:50]
+    else:
+        for m_ in got:
+            idx = [pos.get(w_, -1) for w_ in m_.split(" ")]
+            if -1 in idx or len(idx) not in (12, 18, 24):
+                bad = "a concurrently created mnemonic is not a sentence of the word list: %r" % m_[:50]
+                break
+            bits = "".join(bin(i_)[2:].zfill(11) for i_ in idx)
+            ent_bits = len(idx) * 32 // 3
+            ent = int(bits[:ent_bits], 2).to_bytes(ent_bits // 8, "big")
+            if bits[ent_bits:] != bin(R.sha256(ent)[0])[2:].zfill(8)[:ent_bits // 32] or ent == bytes(len(ent)):
+                bad = "a concurrently created mnemonic has a wrong checksum or all-zero entropy: %r" % m_[:50]
+                break
+    if bad:
+        ctx.violation("new-mnemonic", "fresh-wallets-under-threads", bad, {"mode": "threads"})
+    ctx.notes["wallets_created_by_concurrent_threads"] = len(got)
     rj = ctx.validate(MODULE, events, min_shard=100)
     core.report_rejects(ctx, events, rj, lambda e: "new %d-word mnemonic (%s), OS requests %s" % (
         e["inp"]["words"], e["inp"]["via"], [(r["src"], r["n"]) for r in e["requests"]]), lambda e, c: "new-mnemonic")
